@@ -95,6 +95,15 @@ def run(tier):
                               "nsweep": 3, "grad": False, "points": [[0.1, 0.1, 0.1]], "timeout": 60.0})
             probs.append({"nd": 3, "shape": (5, 1, 5), "d": d, "medium": "homog", "cls": "lineX", "tf": ("perm", perm), "homeq": True,
                           "src": src, "grid": v, "pts": [[0.1, 0.1, 0.1]]})
+        if mode == "jit":     # corpus: reproducer of the repaired defect C18-2d-west-loop-row (fix c3ba698); reports its return
+            v = np.full((9, 9), 1500.0)
+            d = (1.0, 1.0)
+            for src in ((7.372169464745998, 9.0), (9.0, 7.372169464745998)):
+                for (vv, ss) in ((v, src), (np.ascontiguousarray(v.T), src[::-1])):
+                    tasks.append({"op": "api_solve", "grid": vv, "gridsize": d, "origin": (0.0, 0.0), "sources": list(ss),
+                                  "nsweep": 3, "grad": False, "points": [[0.5, 0.5]], "timeout": 60.0})
+                probs.append({"nd": 2, "shape": (9, 9), "d": d, "medium": "homog", "cls": "farface-corpus", "tf": ("perm", (1, 0)),
+                              "homeq": True, "src": src, "grid": v, "pts": [[0.5, 0.5]]})
         res = C.run_impl(tasks, mode, timeout=6000)
         for k, p in enumerate(probs):
             a, b = res[2 * k], res[2 * k + 1]
